@@ -274,8 +274,16 @@ fn valid_case<L: HLang>(rng: &mut Rng) -> Case {
                 if !pat_unambiguous(&p) {
                     tags.push("ambiguous-payload".to_string());
                 } else {
+                    // half of the cases: the library hands out fresh slots between printing and parsing back (as any e-graph
+                    // work would); what a printed name denotes must not depend on how many there were
+                    if r.chance(1, 2) {
+                        for _ in 0..r.range(1, 12) {
+                            let _ = Slot::fresh();
+                        }
+                        tags.push("t:fresh-slots-in-between".to_string());
+                    }
                     match guarded(|| Pattern::<L>::parse(&text)) {
-                        Ok(Ok(q)) if q == p => {}
+                        Ok(Ok(q)) if q == p && q.to_string() == text => {}
                         _ => tags.push("viol:roundtrip".to_string()),
                     }
                 }
@@ -292,6 +300,12 @@ fn valid_case<L: HLang>(rng: &mut Rng) -> Case {
                 if !pat_unambiguous(&p) {
                     tags.push("ambiguous-payload".to_string());
                 } else {
+                    if r.chance(1, 2) {
+                        for _ in 0..r.range(1, 12) {
+                            let _ = Slot::fresh();
+                        }
+                        tags.push("t:fresh-slots-in-between".to_string());
+                    }
                     match guarded(|| RecExpr::<L>::parse(&text)) {
                         Ok(Ok(q)) if q == re => {}
                         _ => tags.push("viol:roundtrip".to_string()),
